@@ -740,7 +740,7 @@ func (e *Exec) GenOp(r *rand.Rand, p Profile) []string {
 	case "recreate":
 		// Create again: same schema, or a switch of cache / async settings
 		kv := fmt.Sprintf("cache=%d", r.Intn(2))
-		if (p.Name == "C17" || p.Name == "C10") && pct(r, 60) {
+		if (p.Name == "C17" || p.Name == "C10" || p.Name == "C01") && pct(r, 60) {
 			if pct(r, 50) {
 				kv += fmt.Sprintf(" async=1 thr=%d to=%d", 1+r.Intn(4), 1+r.Intn(3))
 			} else {
